@@ -260,23 +260,43 @@ func TestReceiverReports(t *testing.T) {
 			if kind == 1 { // sender report for a bound or a foreign SSRC
 				now = now.Add(dt.Draw(t, "dt"))
 				gate.Set(now)
-				k := rapid.IntRange(0, ns).Draw(t, "srFor")
-				ssrc := uint32(999)
-				if k < ns {
-					ssrc = streams[k].info.SSRC
+				// one compound with 1..3 sender reports (bound streams and a foreign SSRC in any order, mixed with other packet types):
+				// each bound stream takes the last SR that names it
+				var pkts []rtcp.Packet
+				type srRec struct {
+					k   int
+					ntp uint64
 				}
-				ntpTime := rapid.Uint64().Draw(t, "ntp")
-				raw, _ := rtcp.Marshal([]rtcp.Packet{&rtcp.SenderReport{SSRC: ssrc, NTPTime: ntpTime, RTPTime: 1, PacketCount: 2, OctetCount: 3}})
+				var srs []srRec
+				for i, n := 0, rapid.SampledFrom([]int{1, 1, 2, 3}).Draw(t, "srCount"); i < n; i++ {
+					k := rapid.IntRange(0, ns).Draw(t, "srFor")
+					ssrc := uint32(999)
+					if k < ns {
+						ssrc = streams[k].info.SSRC
+					}
+					ntpTime := rapid.Uint64().Draw(t, "ntp")
+					if rapid.IntRange(0, 3).Draw(t, "otherFirst") == 0 {
+						pkts = append(pkts, &rtcp.ReceiverReport{SSRC: 5}, &rtcp.PictureLossIndication{SenderSSRC: 5, MediaSSRC: ssrc})
+					}
+					pkts = append(pkts, &rtcp.SenderReport{SSRC: ssrc, NTPTime: ntpTime, RTPTime: 1, PacketCount: 2, OctetCount: 3})
+					srs = append(srs, srRec{k, ntpTime})
+					h.U(0xFFFE, uint64(ssrc), ntpTime)
+				}
+				raw, _ := rtcp.Marshal(pkts)
 				rtcpSrc.Push(raw)
 				if _, _, err := rtcpReader.Read(kit.DirtyBuffer(1500), interceptor.Attributes{}); err != nil {
 					t.Fatalf("RTCP read: %v", err)
 				}
-				h.U(0xFFFE, uint64(ssrc), ntpTime)
-				if k < ns {
-					streams[k].m.lsr, streams[k].m.srAt, streams[k].m.haveSR = uint32(ntpTime>>16), now, true //nolint:gosec
-					classes["sender-report"] = true
-				} else {
-					classes["foreign-sender-report"] = true
+				for _, sr := range srs {
+					if sr.k < ns {
+						streams[sr.k].m.lsr, streams[sr.k].m.srAt, streams[sr.k].m.haveSR = uint32(sr.ntp>>16), now, true //nolint:gosec
+						classes["sender-report"] = true
+					} else {
+						classes["foreign-sender-report"] = true
+					}
+				}
+				if len(srs) > 1 {
+					classes["compound-with-several-sender-reports"] = true
 				}
 
 				continue
